@@ -57,13 +57,14 @@ type Case struct {
 	Kind string `json:"kind"` // w c f h
 	Gen  string `json:"gen,omitempty"`
 	// w, f
-	Fmt    int     `json:"fmt"`
-	Table  []Entry `json:"table,omitempty"`
-	TabNil bool    `json:"table_nil,omitempty"` // Event.Formatted == nil
-	WNil   bool    `json:"writer_nil,omitempty"`
-	ENil   bool    `json:"event_nil,omitempty"`
-	Beh    string  `json:"beh,omitempty"` // ok fail0 failhalf failfull shorthalf short0 over
-	Err    string  `json:"err,omitempty"` // which error VALUE a failing writer returns (see writerErrors); "" = a private error
+	Fmt     int     `json:"fmt"`
+	Table   []Entry `json:"table,omitempty"`
+	TabNil  bool    `json:"table_nil,omitempty"` // Event.Formatted == nil
+	WNil    bool    `json:"writer_nil,omitempty"`
+	ENil    bool    `json:"event_nil,omitempty"`
+	Beh     string  `json:"beh,omitempty"`      // ok fail0 failhalf failfull shorthalf short0 over
+	CtxKind string  `json:"ctx_kind,omitempty"` // w c f: the context handed to Process: "" background, live, cancelled, past-deadline, custom (Err() != nil)
+	Err     string  `json:"err,omitempty"`      // which error VALUE a failing writer returns (see writerErrors); "" = a private error
 	// c
 	Calls []Call `json:"calls,omitempty"`
 	// f: 0 /dev/null 1 stdout 2 stderr 3 file 4 failing file 5 no directory 6/7 stdout/stderr on /dev/full 8/9 stdout/stderr closed
@@ -134,6 +135,28 @@ type hwriter struct {
 	beh   string
 	err   error
 	calls []wcall
+}
+
+// the contexts a caller may hand to Process; writer.Sink and FileSink have no business looking at it (C13 does not make writing
+// depend on the caller's context: nil => exactly the stored bytes were written)
+var ctxKinds = []string{"", "live", "cancelled", "past-deadline", "custom"}
+
+func makeCtx(kind string) (context.Context, context.CancelFunc) {
+	switch kind {
+	case "live":
+		return context.WithCancel(context.Background())
+	case "cancelled":
+		ctx, cancel := context.WithCancel(context.Background())
+		cancel()
+		return ctx, cancel
+	case "past-deadline":
+		return context.WithDeadline(context.Background(), time.Now().Add(-time.Hour))
+	case "custom":
+		done := make(chan struct{})
+		close(done)
+		return &customCtx{Context: context.Background(), done: done, err: &privateErr{"ctx gone"}}, func() {}
+	}
+	return context.Background(), func() {}
 }
 
 type privateErr struct{ s string }
@@ -223,7 +246,9 @@ func execW(c Case) (res int, calls []wcall) {
 				panicked = true
 			}
 		}()
-		out, err = s.Process(context.Background(), e)
+		ctx, cancel := makeCtx(c.CtxKind)
+		defer cancel()
+		out, err = s.Process(ctx, e)
 	}()
 	return classify(out, err, panicked), hw.calls
 }
@@ -319,7 +344,9 @@ func execC(c Case, scratch string) (results []cres, stream []int, order []int, o
 							panicked = true
 						}
 					}()
-					out, err = s.Process(context.Background(), e)
+					ctx, cancel := makeCtx(c.CtxKind)
+					defer cancel()
+					out, err = s.Process(ctx, e)
 				}()
 				rmu.Lock()
 				results = append(results, cres{cl.N, classify(out, err, panicked)})
@@ -462,7 +489,9 @@ func execF(c Case, scratch string) (res int, got []int, skipped bool) {
 				panicked = true
 			}
 		}()
-		out, err = fs.Process(context.Background(), e)
+		ctx, cancel := makeCtx(c.CtxKind)
+		defer cancel()
+		out, err = fs.Process(ctx, e)
 	}()
 	res = classify(out, err, panicked)
 	return res, intsOf(readBack()), false
@@ -544,6 +573,10 @@ func execH(c Case) hobs {
 	case "done":
 		ctx, cancel = context.WithCancel(ctx)
 		cancel()
+	case "live":
+		ctx, cancel = context.WithCancel(ctx)
+	case "done-past-deadline":
+		ctx, cancel = context.WithDeadline(ctx, time.Now().Add(-time.Hour))
 	case "done-eof", "done-private", "done-wrapped-deadline":
 		// a context implementation that is done and whose Err() is not one of the two context sentinels
 		done := make(chan struct{})
@@ -621,9 +654,9 @@ func hParams(c Case) (chanAt, ctxAt int) {
 		chanAt = c.ChanAt
 	}
 	switch c.Ctx {
-	case "none":
+	case "none", "live":
 		ctxAt = -1
-	case "done", "done-eof", "done-private", "done-wrapped-deadline":
+	case "done", "done-past-deadline", "done-eof", "done-private", "done-wrapped-deadline":
 		ctxAt = 0
 	default:
 		ctxAt = c.CtxAt
@@ -1052,7 +1085,7 @@ func (e *emitter) run(c Case) {
 			e.mu.Unlock()
 			return
 		}
-		e.record(c, litF(c, res, got), fmt.Sprintf("f:kind%d:res%d", c.FKind, res), len(got) > 0 || res != 0)
+		e.record(c, litF(c, res, got), fmt.Sprintf("f:kind%d:res%d", c.FKind, res)+map[bool]string{true: ":ctx-" + c.CtxKind, false: ""}[c.CtxKind != ""], len(got) > 0 || res != 0)
 	case "g":
 		o, rounds := execG(c)
 		e.mu.Lock()
@@ -1138,6 +1171,16 @@ func genW(e *emitter) {
 			}
 		}
 	}
+	// the caller's context: none of it may change what is written or reported
+	for _, ck := range ctxKinds[1:] {
+		for _, b := range []string{"ok", "fail0", "shorthalf"} {
+			for _, t := range [][]Entry{nil, {{1, []int{11, 12, 13, 10}}, {2, []int{21, 22}}}, {{1, []int{}}, {2, []int{21}}}} {
+				for _, fm := range []int{0, 2, 4} {
+					e.run(Case{Kind: "w", Gen: "contexts", Fmt: fm, Table: t, Beh: b, CtxKind: ck})
+				}
+			}
+		}
+	}
 	// a long value (one Write call whatever the size)
 	long := make([]int, 5000)
 	for i := range long {
@@ -1159,7 +1202,7 @@ func concValue(t, k int, r *hc.Rand) []int {
 func genC(e *emitter, r *hc.Rand, rounds int) {
 	for round := 0; round < rounds; round++ {
 		for nt := 1; nt <= 16; nt++ {
-			c := Case{Kind: "c", Gen: "conc", Fmt: []int{0, 0, 1, 2}[r.Intn(4)]}
+			c := Case{Kind: "c", Gen: "conc", Fmt: []int{0, 0, 1, 2}[r.Intn(4)], CtxKind: ctxKinds[r.Intn(len(ctxKinds))]}
 			for t := 1; t <= nt; t++ {
 				calls := 1 + r.Intn(6)
 				for k := 1; k <= calls; k++ {
@@ -1198,6 +1241,15 @@ func genF(e *emitter) {
 			}
 		}
 	}
+	for _, ck := range ctxKinds[1:] {
+		for kind := 0; kind <= 9; kind++ {
+			for _, fm := range []int{0, 2} {
+				for _, t := range [][]Entry{tables[3], tables[4]} {
+					e.run(Case{Kind: "f", Gen: "contexts", FKind: kind, Fmt: fm, Table: t, CtxKind: ck})
+				}
+			}
+		}
+	}
 }
 
 func genH(e *emitter, repeat int) {
@@ -1211,7 +1263,7 @@ func genH(e *emitter, repeat int) {
 		k  string
 		at int
 	}
-	ctxs := []cx{{"none", -1}, {"done", 0}, {"done-eof", 0}, {"done-private", 0}, {"done-wrapped-deadline", 0}, {"cancel", short}, {"deadline", short}, {"cancel", long}, {"deadline", long}}
+	ctxs := []cx{{"none", -1}, {"live", -1}, {"done", 0}, {"done-past-deadline", 0}, {"done-eof", 0}, {"done-private", 0}, {"done-wrapped-deadline", 0}, {"cancel", short}, {"deadline", short}, {"cancel", long}, {"deadline", long}}
 	var cases []Case
 	for rep := 0; rep < repeat; rep++ {
 		for _, c := range chans {
